@@ -87,6 +87,24 @@ pub fn fmt_all<T: std::fmt::Display>(t: &T) -> Vec<String> {
     ]
 }
 
+/// `Deserialize::deserialize_in_place` on an existing value: returns whether it succeeded
+pub fn de_in_place<'a, T: Deserialize<'a>>(f: Fmt, b: &'a [u8], place: &mut T) -> bool {
+    match f {
+        Fmt::Json => {
+            let mut d = serde_json::Deserializer::from_slice(b);
+            T::deserialize_in_place(&mut d, place).is_ok() && d.end().is_ok()
+        }
+        Fmt::Ron => match ron::de::Deserializer::from_bytes(b) {
+            Ok(mut d) => T::deserialize_in_place(&mut d, place).is_ok() && d.end().is_ok(),
+            Err(_) => false,
+        },
+        Fmt::MsgPack => {
+            let mut d = rmp_serde::Deserializer::new(b);
+            T::deserialize_in_place(&mut d, place).is_ok()
+        }
+    }
+}
+
 pub fn run_arbitrary<'a, T: arbitrary::Arbitrary<'a>, I>(b: &'a [u8], into: fn(T) -> I) -> Result<I, String> {
     let mut u = arbitrary::Unstructured::new(b);
     T::arbitrary(&mut u).map(into).map_err(|e| format!("{e:?}"))
@@ -370,5 +388,16 @@ macro_rules! g_iter_ref {
 macro_rules! g_err_text {
     () => {
         Some(|i: usize| err_from_ix(i).map(|e| format!("{}", e)))
+    };
+}
+
+#[macro_export]
+macro_rules! g_de_in_place {
+    () => {
+        Some(|start: II, f: $crate::types::Fmt, b: &[u8]| {
+            let mut t = mk(start)?;
+            let ok = $crate::glue::de_in_place(f, b, &mut t);
+            Some((ok, t.into_inner()))
+        })
     };
 }
